@@ -59,6 +59,8 @@ NUC_DISCRETE = ["BH", "DT"]
 CODON_REV = ["CNFGTR", "CNFHKY", "MG94HKY", "MG94GTR", "GY94", "Y98", "H04G", "H04GK", "H04GGK"]
 CODON_NONREV = ["GNC"]
 PROT = ["DSO78", "JTT92", "AH96", "AH96_mtmammals", "WG01"]
+# predicate-built non-reversible models (cogent3.evolve.ns_substitution_model), see _build_ns_model
+NS_MODELS = ["ns:nuc", "ns:nuc", "ns:dinuc"]
 REVERSIBLE = set(NUC_REV + CODON_REV + PROT)
 DISCRETE = set(NUC_DISCRETE)
 TINY_PROB = 2e-6  # set_motif_probs itself lifts anything below 1e-6 to that value
@@ -156,18 +158,29 @@ def m_permute_kids(root, codes):
     return t
 
 
-def m_split(root, child_name, frac, new_name):
-    """a copy in which the edge above ``child_name`` is split by a degree-2 node; the child keeps frac*len"""
+def m_split(root, child_name, cuts, new_name):
+    """a copy in which the edge above ``child_name`` is split into len(cuts)+1 pieces by degree-2 nodes.  ``cuts`` is a
+    fraction or an ascending list of fractions of the edge length measured from the child end: the child keeps
+    cuts[0]*len, the next piece is (cuts[1]-cuts[0])*len, ..., the piece below the old parent gets the remainder.
+    Fractions 0 and 1 (and equal neighbours) give zero-length pieces."""
+    if not isinstance(cuts, (list, tuple)):
+        cuts = [cuts]
     t = _deep(root)
     par = m_parent_map(t)
     c = m_find(t, child_name)
     p = par[child_name]
     total = c["len"]
-    lower = total * frac
-    upper = total - lower
-    mid = {"name": new_name, "len": upper, "grp": c["grp"], "pw": c["pw"], "kids": [c]}
-    c["len"] = lower
-    p["kids"][p["kids"].index(c)] = mid
+    pieces, prev = [], 0.0
+    for x in cuts:
+        pieces.append(total * (x - prev))
+        prev = x
+    pieces.append(max(0.0, total - sum(pieces)))
+    grp, pw = c["grp"], c["pw"]
+    c["len"] = pieces[0]
+    node = c
+    for i, ln in enumerate(pieces[1:]):
+        node = {"name": new_name if i == 0 else f"{new_name}_{i}", "len": ln, "grp": grp, "pw": pw, "kids": [node]}
+    p["kids"][p["kids"].index(c)] = node
     return t
 
 
@@ -242,9 +255,13 @@ def _loguniform(lo, hi):
 
 @st.composite
 def tree_st(draw, min_tips, max_tips, discrete):
-    n = draw(st.sampled_from([k for k in (4, 5, 3, 6, 5, 4) if min_tips <= k <= max_tips]))
+    n = draw(st.sampled_from([k for k in (4, 5, 3, 6, 5, 4, 3, 5, 4, 2) if min_tips <= k <= max_tips]))
     names = draw(st.permutations(TIP_POOL))[:n]
-    length = _loguniform(1e-3, 3.0)
+    # mostly [1e-3, 3]; one edge in six is very short (down to 1e-8) or very long (up to the library's bound of 10)
+    length = st.one_of(
+        _loguniform(1e-3, 3.0), _loguniform(1e-3, 3.0), _loguniform(1e-3, 3.0), _loguniform(1e-3, 3.0), _loguniform(1e-3, 3.0),
+        st.one_of(_loguniform(1e-8, 1e-3), _loguniform(3.0, 10.0), st.sampled_from([1e-8, 10.0])),
+    )
 
     def attrs():
         d = {"len": draw(length), "grp": draw(st.integers(0, 2)), "pw": None}
@@ -304,6 +321,67 @@ def columns_st(draw, family, ntips, gaps_ok):
     return [pool[i] for i in idx]
 
 
+_CUT = st.one_of(
+    st.floats(0.05, 0.95, allow_nan=False), st.floats(0.05, 0.95, allow_nan=False), st.floats(0.05, 0.95, allow_nan=False),
+    st.sampled_from([0.0, 1.0, 0.5]),
+)
+
+
+@st.composite
+def xf_st(draw, tree, ncols, ntips):
+    """arguments of the transformations.  Split and root positions are fractions of an edge and include 0 and 1 (a
+    zero-length piece); an edge is split into 2, 3 or 4 pieces"""
+    nnodes = len(m_nodes(tree))
+    return {
+        "colperm": list(draw(st.permutations(list(range(ncols))))),
+        "seqperm": list(draw(st.permutations(list(range(ntips))))),
+        "kids": [draw(st.integers(0, 23)) for _ in range(len(m_internal(tree)))],
+        "k": draw(st.sampled_from([2, 3])),
+        "tile": draw(st.booleans()),
+        "dup": draw(st.lists(st.integers(0, ncols - 1), min_size=1, max_size=ncols)),
+        "reroot": [{"node": draw(st.integers(0, nnodes - 1)), "frac": draw(_CUT), "at": draw(st.booleans())} for _ in range(2)],
+        "lib": {"node": draw(st.integers(0, nnodes - 1)), "tip": draw(st.booleans())},
+        "split": [
+            {"node": draw(st.integers(0, nnodes - 1)), "cuts": sorted(draw(_CUT) for _ in range(draw(st.sampled_from([1, 1, 1, 2, 3]))))}
+            for _ in range(draw(st.integers(1, 3)))
+        ],
+    }
+
+
+@st.composite
+def het_st(draw, family, model):
+    """rate heterogeneity: how the bins of the likelihood function differ.
+    gamma-rate / free-rate: ordered_param='rate' with distribution 'gamma' / 'free' (free = the library's monotonic
+    partition at its default value; it has no public setter); gamma-param / free-param: the same on a rate parameter of
+    the model (``<param>_factor``); bin-params: no ordered parameter, every rate parameter gets its own constant value per
+    bin through set_param_rule(par, bin=...).  Bin probabilities: library default (equal), or unequal via
+    set_param_rule('bprobs', init=...) / (value=..., is_constant=True); every probability is >= 0.02/3.02."""
+    paramless = family == "prot" or model in ("JC69", "F81")
+    if model in DISCRETE:
+        return {"mode": "none"}
+    p_het = {"nuc": 35, "ns": 30, "prot": 30, "codon": 25}[family]
+    if draw(st.integers(0, 99)) >= p_het:
+        return {"mode": "none"}
+    if paramless:
+        mode = draw(st.sampled_from(["gamma-rate", "gamma-rate", "free-rate"]))
+    elif family == "codon":
+        # every (model, ordered_param, distribution) is a separate 1-3 s model construction
+        mode = draw(st.sampled_from(["gamma-rate", "gamma-param", "bin-params", "bin-params"]))
+    else:
+        mode = draw(st.sampled_from(["gamma-rate", "gamma-rate", "gamma-param", "gamma-param", "free-rate", "free-param", "bin-params", "bin-params"]))
+    nb = draw(st.sampled_from({"nuc": [2, 2, 3, 3, 4], "ns": [2, 3], "prot": [2, 3], "codon": [2, 2, 3]}[family]))
+    return {
+        "mode": mode,
+        "bins": nb,
+        "param": "omega" if family == "codon" else None,  # else chosen by pidx from the model's parameter list
+        "pidx": draw(st.integers(0, 11)),
+        "shape": draw(_loguniform(0.2, 5.0)),
+        "bp": draw(st.sampled_from(["default", "init", "init", "const"])),
+        "bprobs": [draw(_loguniform(0.02, 1.0)) for _ in range(nb)],
+        "names": draw(st.booleans()),
+    }
+
+
 @st.composite
 def case_st(draw, family, models=None):
     if models is not None:
@@ -312,6 +390,9 @@ def case_st(draw, family, models=None):
     elif family == "nuc":
         model = draw(st.sampled_from(NUC_REV + NUC_REV + NUC_NONREV + NUC_NONREV + NUC_DISCRETE))
         max_tips, nmp = 6, 4
+    elif family == "ns":
+        model = draw(st.sampled_from(NS_MODELS))
+        max_tips, nmp = 5, (16 if model == "ns:dinuc" else 4)
     elif family == "codon":
         model = draw(st.sampled_from(CODON_REV + CODON_NONREV + CODON_NONREV))
         max_tips, nmp = 5, (4 if model.startswith("MG94") else 61)
@@ -319,11 +400,13 @@ def case_st(draw, family, models=None):
         model = draw(st.sampled_from(PROT))
         max_tips, nmp = 5, 20
     discrete = model in DISCRETE
-    tree = draw(tree_st(3, max_tips, discrete))
+    tree = draw(tree_st(2, max_tips, discrete))
     ntips = len(m_tips(tree))
-    cols = draw(columns_st(family, ntips, gaps_ok=not discrete))
+    colfam = ("dinuc" if model == "ns:dinuc" else "nuc") if family == "ns" else family
+    cols = draw(columns_st(colfam, ntips, gaps_ok=not discrete))
     ncols = len(cols)
-    pi_mode = draw(st.sampled_from(["varied", "sparse", "varied", "equal", "varied", "sparse", "varied", "varied"]))
+    # "data": set_motif_probs is never called, the function keeps what set_alignment derived from the alignment
+    pi_mode = draw(st.sampled_from(["varied", "sparse", "varied", "equal", "varied", "sparse", "varied", "varied", "data", "data"]))
     w = [1.0] * nmp if pi_mode == "equal" else [draw(st.floats(0.05, 1.0, allow_nan=False)) for _ in range(nmp)]
     if pi_mode == "sparse":
         # some motifs get the probability the library itself assigns to unobserved motifs (about 1e-6)
@@ -335,32 +418,14 @@ def case_st(draw, family, models=None):
     # 1.0 is the value every rate parameter has in a freshly made likelihood function
     pvals = [draw(st.one_of(st.just(1.0), _loguniform(0.1, 10.0), _loguniform(0.1, 10.0))) for _ in range(12)]
     scope = "global" if discrete else draw(st.sampled_from(["global", "global", "global", "edge", "edge"]))
-    bins = 0
-    if family == "nuc" and not discrete and draw(st.integers(0, 4)) == 0:
-        bins = draw(st.sampled_from([2, 3]))
-    nnodes = len(m_nodes(tree))
-    xf = {
-        "colperm": list(draw(st.permutations(list(range(ncols))))),
-        "seqperm": list(draw(st.permutations(list(range(ntips))))),
-        "kids": [draw(st.integers(0, 23)) for _ in range(len(m_internal(tree)))],
-        "k": draw(st.sampled_from([2, 3])),
-        "tile": draw(st.booleans()),
-        "dup": draw(st.lists(st.integers(0, ncols - 1), min_size=1, max_size=ncols)),
-        "reroot": [
-            {"node": draw(st.integers(0, nnodes - 1)), "frac": draw(st.floats(0.05, 0.95, allow_nan=False)), "at": draw(st.booleans())}
-            for _ in range(2)
-        ],
-        "lib": {"node": draw(st.integers(0, nnodes - 1)), "tip": draw(st.booleans())},
-        "split": [
-            {"node": draw(st.integers(0, nnodes - 1)), "frac": draw(st.floats(0.05, 0.95, allow_nan=False))}
-            for _ in range(draw(st.integers(1, 3)))
-        ],
-    }
+    het = draw(het_st(family, model))
+    # optimise_motif_probs=True: motif probabilities are a free (not constant) partition; a separate model construction
+    opt_mp = draw(st.integers(0, 11 if family == "codon" else 3)) == 0
     return {
         "family": family,
         "model": model,
-        "bins": bins,
-        "shape": draw(_loguniform(0.2, 5.0)),
+        "het": het,
+        "opt_mp": opt_mp,
         "new_type": draw(st.integers(0, 3)) == 0,
         "default_expm": draw(st.booleans()),
         "tree": tree,
@@ -369,7 +434,7 @@ def case_st(draw, family, models=None):
         "mp": w,
         "pvals": pvals,
         "scope": scope,
-        "xf": xf,
+        "xf": draw(xf_st(tree, ncols, ntips)),
     }
 
 
@@ -383,7 +448,7 @@ def word_case_st(draw, kind, mprob_models):
     words = sorted(WORD_KINDS[kind])
     wl = len(words[0])
     mpm = draw(st.sampled_from(mprob_models))
-    tree = draw(tree_st(3, 5, False))
+    tree = draw(tree_st(2, 5, False))
     ntips = len(m_tips(tree))
     cols = draw(columns_st("codon" if kind == "codon" else kind, ntips, gaps_ok=True))
     ncols = len(cols)
@@ -404,36 +469,20 @@ def word_case_st(draw, kind, mprob_models):
         w.append(x)
     pvals = [draw(st.one_of(st.just(1.0), _loguniform(0.1, 10.0), _loguniform(0.1, 10.0))) for _ in range(12)]
     scope = draw(st.sampled_from(["global", "global", "edge"]))
-    nnodes = len(m_nodes(tree))
-    xf = {
-        "colperm": list(draw(st.permutations(list(range(ncols))))),
-        "seqperm": list(draw(st.permutations(list(range(ntips))))),
-        "kids": [draw(st.integers(0, 23)) for _ in range(len(m_internal(tree)))],
-        "k": draw(st.sampled_from([2, 3])),
-        "tile": draw(st.booleans()),
-        "dup": draw(st.lists(st.integers(0, ncols - 1), min_size=1, max_size=ncols)),
-        "reroot": [
-            {"node": draw(st.integers(0, nnodes - 1)), "frac": draw(st.floats(0.05, 0.95, allow_nan=False)), "at": draw(st.booleans())}
-            for _ in range(2)
-        ],
-        "lib": {"node": draw(st.integers(0, nnodes - 1)), "tip": draw(st.booleans())},
-        "split": [
-            {"node": draw(st.integers(0, nnodes - 1)), "frac": draw(st.floats(0.05, 0.95, allow_nan=False))}
-            for _ in range(draw(st.integers(1, 3)))
-        ],
-    }
+    xf = draw(xf_st(tree, ncols, ntips))
+    data_pi = draw(st.integers(0, 5)) == 0  # motif probabilities left as derived from the alignment
     return {
         "family": "word",
         "kind": kind,
         "mprob_model": mpm,
         "model": f"word:{kind}:{mpm}",
-        "bins": 0,
-        "shape": 1.0,
+        "het": {"mode": "none"},
+        "opt_mp": False,
         "new_type": draw(st.integers(0, 3)) == 0,
         "default_expm": draw(st.sampled_from([False, True, False])),
         "tree": tree,
         "cols": cols,
-        "pi_mode": "position-skewed-product" if pure else "position-skewed",
+        "pi_mode": "data" if data_pi else ("position-skewed-product" if pure else "position-skewed"),
         "position_freqs": pos,
         "mp": w,
         "pvals": pvals,
@@ -442,29 +491,123 @@ def word_case_st(draw, kind, mprob_models):
     }
 
 
+LOCUS_POOL = ["x", "y", "L3", "1st-half", "b"]
+LOCI_MODELS = NUC_REV + NUC_REV + NUC_NONREV
+
+
+@st.composite
+def loci_case_st(draw):
+    """a multi-locus problem: one continuous-time nucleotide model and tree, 2-3 loci each with its own alignment,
+    its own motif probabilities (data-derived / explicit per locus / one explicit vector for all loci) and either shared or
+    locus-specific rate parameters; branch lengths are shared by construction of the library"""
+    model = draw(st.sampled_from(LOCI_MODELS))
+    tree = draw(tree_st(2, 5, False))
+    ntips = len(m_tips(tree))
+    nloci = draw(st.sampled_from([2, 2, 3]))
+    names = draw(st.permutations(LOCUS_POOL))[:nloci]
+    loci = []
+    for nm in names:
+        cols = draw(columns_st("nuc", ntips, gaps_ok=True))[: draw(st.integers(1, 8))]
+        loci.append({
+            "name": nm,
+            "cols": cols,
+            "mp": [draw(st.floats(0.05, 1.0, allow_nan=False)) for _ in range(4)],
+            "shift": draw(st.integers(0, 11)),
+            "colperm": list(draw(st.permutations(list(range(len(cols)))))),
+            "seqperm": list(draw(st.permutations(list(range(ntips))))),
+        })
+    nnodes = len(m_nodes(tree))
+    return {
+        "family": "loci",
+        "model": model,
+        "opt_mp": draw(st.sampled_from([False, False, False, True])),
+        "new_type": draw(st.integers(0, 3)) == 0,
+        "default_expm": draw(st.booleans()),
+        "tree": tree,
+        "loci": loci,
+        "pi_mode": draw(st.sampled_from(["data", "per-locus", "per-locus", "shared"])),
+        "param_scope": draw(st.sampled_from(["per-locus", "per-locus", "shared"])),
+        "scope": draw(st.sampled_from(["global", "global", "edge"])),
+        "pvals": [draw(st.one_of(st.just(1.0), _loguniform(0.1, 10.0), _loguniform(0.1, 10.0))) for _ in range(12)],
+        "xf": {
+            "locusperm": list(draw(st.permutations(list(range(nloci))))),
+            "kids": [draw(st.integers(0, 23)) for _ in range(len(m_internal(tree)))],
+            "k": draw(st.sampled_from([2, 3])),
+            "reroot": {"node": draw(st.integers(0, nnodes - 1)), "frac": draw(_CUT), "at": draw(st.booleans())},
+            "split": {"node": draw(st.integers(0, nnodes - 1)), "cuts": sorted(draw(_CUT) for _ in range(draw(st.sampled_from([1, 1, 2, 3]))))},
+        },
+    }
+
+
 # ------------------------------------------------------------------ execution
 class _Ctx:
     pass
 
 
-_PRISTINE = {}  # per process: (model, bins) -> substitution model never handed to a likelihood function
+_PRISTINE = {}  # per process: (model, constructor keywords) -> substitution model never handed to a likelihood function
+BIN_NAMES = ["slow", "fast", "mid", "z4"]
 
 
-def _get_sm(model, bins):
+def _norm_het(case):
+    """the rate-heterogeneity description of a case (cases written before ``het`` existed carry bins / shape)"""
+    het = case.get("het")
+    if het is None:
+        b = case.get("bins", 0)
+        het = {"mode": "gamma-rate", "bins": b, "shape": case.get("shape", 1.0), "bp": "default", "names": False} if b else {"mode": "none"}
+    return het
+
+
+def _model_kw(case, het):
+    """constructor keywords of the substitution model of a case"""
+    kw = {}
+    mode = het["mode"]
+    if mode in ("gamma-rate", "free-rate"):
+        kw = {"ordered_param": "rate", "distribution": mode.split("-")[0]}
+    elif mode in ("gamma-param", "free-param"):
+        par = het.get("param")
+        if par is None:
+            plist = sorted(_get_sm(case["model"], {}).get_param_list())
+            par = plist[het["pidx"] % len(plist)] if plist else "rate"
+        kw = {"ordered_param": par, "distribution": mode.split("-")[0]}
+    if case.get("opt_mp"):
+        kw["optimise_motif_probs"] = True
+    return kw
+
+
+def _get_sm(model, kw):
     """a fresh substitution model instance; codon models take seconds to construct, so a pristine instance is
     built once per process and every case works on its own deep copy (execution stays a function of the case)"""
     import copy
 
     import cogent3
 
-    key = (model, bool(bins))
+    key = (model, tuple(sorted(kw.items())))
     if key not in _PRISTINE:
         if model.startswith("word:"):
             _PRISTINE[key] = _build_word_model(*model.split(":")[1:])
+        elif model.startswith("ns:"):
+            _PRISTINE[key] = _build_ns_model(model.split(":")[1], **kw)
         else:
-            kw = {"ordered_param": "rate", "distribution": "gamma"} if bins else {}
             _PRISTINE[key] = cogent3.get_model(model, **kw)
     return copy.deepcopy(_PRISTINE[key])
+
+
+def _build_ns_model(kind, **kw):
+    """non-reversible, non-stationary models built from directed predicates the way cogent3.evolve.models builds GN;
+    the predicate lists are those of tests/test_evolve/test_ns_substitution_model.py (test_nr_nucleotide /
+    test_nr_dinucleotide) plus, for nucleotides, two more directed and one undirected change"""
+    from cogent3.evolve import ns_substitution_model as ns
+    from cogent3.evolve.predicate import MotifChange
+
+    common = dict(recode_gaps=True, model_gaps=False, name=f"user-ns-{kind}")
+    common.update(kw)
+    ac = MotifChange("A", "C", forward_only=True)
+    ga = MotifChange("G", "A", forward_only=True)
+    if kind == "dinuc":
+        return ns.NonReversibleDinucleotide(predicates=[ac, ga, MotifChange("CG", "TG", forward_only=True)], **common)
+    ct = MotifChange("C", "T", forward_only=True).aliased("ct")
+    tg = MotifChange("T", "G", forward_only=True)
+    return ns.NonReversibleNucleotide(predicates=[ac, ga, ct, tg, MotifChange("A", "T")], **common)
 
 
 def _build_word_model(kind, mpm):
@@ -501,10 +644,15 @@ def _lnl(ctx, tm, cols, order, real_tree=None, pade=False):
         tree = real_tree
         nodes = None
         lengths = {e.name: e.length for e in tree.get_edge_vector() if not e.isroot()}
-    kw = {"bins": case["bins"]} if case["bins"] else {}
+    het = ctx.het
+    nb = het["bins"] if het["mode"] != "none" else 0
+    bin_names = (BIN_NAMES[:nb] if het.get("names") else [f"bin{i}" for i in range(nb)]) if nb else []
+    kw = {"bins": (bin_names if het.get("names") else nb)} if nb else {}
     lf = ctx.sm.make_likelihood_function(tree, **kw)
     lf.set_alignment(aln)
-    lf.set_motif_probs(ctx.mprobs)
+    if case["pi_mode"] != "data":
+        lf.set_motif_probs(ctx.mprobs)
+    ctx.mprobs_free = bool(lf.optimise_motif_probs)
     model = case["model"]
     if pade and model not in DISCRETE:
         lf.set_expm("pade")
@@ -519,24 +667,53 @@ def _lnl(ctx, tm, cols, order, real_tree=None, pade=False):
             rules.append(dict(par_name="psubs", edge=n["name"], value=P, is_constant=True))
         lf.apply_param_rules(rules)
         return float(lf.lnL)
-    pnames = sorted(p for p in lf.get_param_names() if p not in SKIP_PARAMS)
+    pnames = sorted(p for p in lf.get_param_names() if p not in SKIP_PARAMS and not p.endswith(("_factor", "_shape")))
     pv = case["pvals"]
+    # in mode bin-params every parameter has its own value in every bin (offset 3 * bin index into pvals)
+    per_bin = [(3 * j, {"bin": bn}) for j, bn in enumerate(bin_names)] if het["mode"] == "bin-params" else [(0, {})]
     if case["scope"] == "global" or nodes is None:
         for i, p in enumerate(pnames):
-            rules.append(dict(par_name=p, value=pv[i % len(pv)], is_constant=True))
+            for off, bkw in per_bin:
+                rules.append(dict(par_name=p, value=pv[(i + off) % len(pv)], is_constant=True, **bkw))
     else:
         groups = {}
         for n in nodes:
             groups.setdefault(n["grp"], []).append(n["name"])
         for i, p in enumerate(pnames):
             for g, edges in sorted(groups.items()):
-                rules.append(dict(par_name=p, edges=edges, value=pv[(i + 5 * g) % len(pv)], is_constant=True))
-    if case["bins"]:
-        rules.append(dict(par_name="rate_shape", value=case["shape"], is_constant=True))
+                for off, bkw in per_bin:
+                    rules.append(dict(par_name=p, edges=edges, value=pv[(i + 5 * g + off) % len(pv)], is_constant=True, **bkw))
+    if nb:
+        if het["mode"].startswith("gamma"):
+            shape = [p for p in lf.get_param_names() if p.endswith("_shape")]
+            if len(shape) != 1:
+                from vlib.core import HarnessError
+
+                raise HarnessError(f"expected one gamma shape parameter, found {shape}")
+            rules.append(dict(par_name=shape[0], value=het["shape"], is_constant=True))
+        if het["bp"] != "default":
+            tot = sum(het["bprobs"][:nb])
+            bp = [x / tot for x in het["bprobs"][:nb]]
+            bp[-1] = 1.0 - sum(bp[:-1])
+            rules.append(dict(par_name="bprobs", value=bp, is_constant=True) if het["bp"] == "const" else dict(par_name="bprobs", init=bp))
     for name, ln in lengths.items():
         rules.append(dict(par_name="length", edge=name, value=ln, is_constant=True))
     lf.apply_param_rules(rules)
     return float(lf.lnL)
+
+
+def _spread(weights):
+    """1 - sum(p_i^2) of the normalised weights: the probability that two draws differ.  The library calibrates rate
+    matrices to one expected substitution per unit length under the motif distribution, so a nearly degenerate
+    distribution (spread -> 0) scales the rates of the rare states up by about 1 / spread"""
+    tot = float(sum(weights))
+    if tot <= 0:
+        return 0.0
+    return 1.0 - sum((x / tot) ** 2 for x in weights)
+
+
+STIFF_SPREAD = 0.05
+TINY_EDGE = 1e-5
 
 
 def _observe(tree):
@@ -566,7 +743,9 @@ def execute(case) -> Soft:
     ncols = len(cols)
     rev = word or model in REVERSIBLE
     discrete = model in DISCRETE
-    ok, sm = s.call(f"get_model/{fam}", _get_sm, model, case["bins"])
+    het = ctx.het = _norm_het(case)
+    data_pi = case["pi_mode"] == "data"
+    ok, sm = s.call(f"get_model/{fam}", lambda: _get_sm(model, _model_kw(case, het)))
     if not ok:
         return s
     ctx.sm = sm
@@ -586,10 +765,26 @@ def execute(case) -> Soft:
 
     kind = "discrete" if discrete else ("reversible" if rev else "nonreversible")
     distinct = len({tuple(c) for c in cols})
-    canon = WORD_KINDS[case["kind"]] if word else (SENSE if fam == "codon" else (AAS if fam == "prot" else NUCS))
+    canon = WORD_KINDS[case["kind"]] if word else (SENSE if fam == "codon" else (AAS if fam == "prot" else (DINUCS if model == "ns:dinuc" else NUCS)))
     degen = any(m not in canon for c in cols for m in c)
+    if data_pi:
+        # the function keeps the motif probabilities set_alignment derived from the alignment: unequal unless all counts agree
+        counts = {}
+        for c in cols:
+            for m in c:
+                if m in canon:
+                    counts[m] = counts.get(m, 0) + 1
+        unequal_pi = len(counts) < len(canon) or len(set(counts.values())) > 1
+        stiff = _spread(list(counts.values())) < STIFF_SPREAD
+    else:
+        stiff = _spread(list(ctx.mprobs.values())) < STIFF_SPREAD
+    lens = [n["len"] for n in m_nodes(tm)]
     s.cls(
-        f"family:{case['family']}", f"model:{model}", f"kind:{kind}", f"scope:{case['scope']}", "bins" if case["bins"] else "no-bins",
+        f"family:{case['family']}", f"model:{model}", f"kind:{kind}", f"scope:{case['scope']}",
+        f"het:{het['mode']}", f"bins:{het['bins'] if het['mode'] != 'none' else 0}",
+        *([f"bprobs:{het['bp']}"] if het["mode"] != "none" else []),
+        "optimise_motif_probs=True" if case.get("opt_mp") else "optimise_motif_probs:model-default",
+        "length<1e-3" if min(lens) < 1e-3 else "lengths>=1e-3", "length>3" if max(lens) > 3 else "lengths<=3",
         f"root-degree:{len(tm['kids'])}", "polytomy" if any(len(n["kids"]) > 2 for n in m_internal(tm)[1:]) or len(tm["kids"]) > 3 else "binary",
         "degenerate-symbols" if degen else "canonical-only", "duplicate-columns" if distinct < ncols else "all-columns-distinct",
         f"pi:{case['pi_mode']}", "new-type-alignment" if case["new_type"] else "old-type-alignment", f"tips:{ntips}",
@@ -598,6 +793,14 @@ def execute(case) -> Soft:
     if word:
         s.cls(f"word-kind:{case['kind']}", f"mprob_model:{case['mprob_model']}")
 
+    def has_canonical(columns):
+        # set_alignment derives motif probabilities from the complete motifs of the alignment (before they are overridden);
+        # an alignment without a single complete motif has no such frequencies and is not a valid input
+        return any(m in canon for c in columns for m in c)
+
+    if not has_canonical(cols):
+        s.cls("alignment-without-complete-motif(skipped)")
+        return s
     ok, base = s.call(f"base/{fam}", _lnl, ctx, tm, cols, tips)
     if not ok:
         return s
@@ -606,8 +809,19 @@ def execute(case) -> Soft:
         return s
     evals = 0
 
+    # Circumstance of a confirmed defect (C11_ext_findings.md, finding 1): PadeExponentiator picks approximation order 1
+    # when |Qt| < 1.2e-6, which gets entries of exp(Qt) that need three substitutions wrong by 50 %.  Relations that compare
+    # different subdivisions of an edge are given their own signature when the model has 3-letter motifs and an edge of
+    # either tree is that short (|Q| >= 1 row-wise for a calibrated matrix; bound taken with a margin).
+    word3 = case["family"] == "codon" or (word and case["kind"] in ("codon", "tri"))
+
+    def tiny(tree_model):
+        return any(0.0 < n["len"] < TINY_EDGE for n in m_nodes(tree_model))
+
     def relate(name, want, what, *args, rtol=1e-9, tag="", **kwargs):
         nonlocal evals
+        if tag and word3 and (tiny(tm) or tiny(args[0] if args[0] is not None else _observe(kwargs["real_tree"]))):
+            tag += "/tiny-edge-3step"
         sig = f"{name}{tag}/{fam}"
         ok, got = s.call(sig, _lnl, ctx, *args, **kwargs)
         if not ok:
@@ -615,7 +829,7 @@ def execute(case) -> Soft:
         evals += 1
         s.cls(f"rel:{name}{tag}")
         s.notes.setdefault("residuals", []).append([name + tag, abs(got - want) / max(1.0, abs(want))])
-        s.close(got, want, sig, f"{model} scope={case['scope']} bins={case['bins']} pi={case['pi_mode']} {what}: base lnL {base!r}", rtol=rtol)
+        s.close(got, want, sig, f"{model} scope={case['scope']} het={het['mode']} pi={case['pi_mode']} {what}: base lnL {base!r}", rtol=rtol)
 
     # Relations that evaluate P(t) of one rate matrix at different t (root placement, edge split) depend on the accuracy
     # of the matrix exponential.  Half of the cases evaluate them with the Pade exponentiator on both sides (tolerance
@@ -630,6 +844,11 @@ def execute(case) -> Soft:
             if not ok or not (math.isfinite(rbase) and rbase < 0):
                 return s
             rkw = {"pade": True, "tag": "/pade"}
+            if stiff:
+                # nearly all probability on one motif: the calibrated rate matrix has entries of 1e2 ... 1e5, Pade's scaling
+                # and squaring then loses digits (measured 6e-10 absolute at length 10); required to 1e-6 like the default route
+                rkw["rtol"] = 1e-6
+                s.cls("near-degenerate-motif-probs(pade relations at 1e-6)")
 
     # -- column permutation (motif-sized blocks)
     perm = xf["colperm"]
@@ -645,18 +864,25 @@ def execute(case) -> Soft:
     ktm = m_permute_kids(tm, xf["kids"])
     relate("childorder", base, f"children reordered: {m_newick(ktm)}", ktm, cols, tips)
 
-    # -- repeat every column k times
+    # -- repeat every column k times.  With motif probabilities taken from the alignment this needs them to be the plain
+    # relative frequencies (constant probabilities); optimisable ones get a pseudocount of 0.5 when a motif is unobserved
     k = xf["k"]
-    rcols = cols * k if xf["tile"] else [c for c in cols for _ in range(k)]
-    relate("repeat", k * base, f"every column repeated {k} times ({'tiled' if xf['tile'] else 'in place'})", tm, rcols, tips)
+    if data_pi and ctx.mprobs_free:
+        k = 1
+        s.cls("repeat-skipped(data-derived optimisable motif probs)")
+    else:
+        rcols = cols * k if xf["tile"] else [c for c in cols for _ in range(k)]
+        relate("repeat", k * base, f"every column repeated {k} times ({'tiled' if xf['tile'] else 'in place'})", tm, rcols, tips)
 
-    # -- append copies of existing columns: lnL(A ++ A[S]) = lnL(A) + lnL(A[S])
+    # -- append copies of existing columns: lnL(A ++ A[S]) = lnL(A) + lnL(A[S]); the three alignments have different
+    # motif frequencies, so not with data-derived motif probabilities
     dup = xf["dup"]
     scols = [cols[i] for i in dup]
-    ok, sub = s.call(f"subset/{fam}", _lnl, ctx, tm, scols, tips)
-    if ok and math.isfinite(sub):
-        evals += 1
-        relate("append-identical", base + sub, f"copies of columns {dup} appended (their own lnL {sub!r})", tm, cols + scols, tips)
+    if not data_pi and has_canonical(scols):
+        ok, sub = s.call(f"subset/{fam}", _lnl, ctx, tm, scols, tips)
+        if ok and math.isfinite(sub):
+            evals += 1
+            relate("append-identical", base + sub, f"copies of columns {dup} appended (their own lnL {sub!r})", tm, cols + scols, tips)
 
     # -- edge splits (continuous time)
     nodes = m_nodes(tm)
@@ -668,7 +894,11 @@ def execute(case) -> Soft:
             if nd in done:
                 continue
             done.add(nd)
-            stm = m_split(stm, nd, sp["frac"], f"s{j}")
+            cuts = sp["cuts"] if "cuts" in sp else [sp["frac"]]
+            stm = m_split(stm, nd, cuts, f"s{j}")
+            s.cls(f"split-pieces:{len(cuts) + 1}")
+            if any(x in (0.0, 1.0) for x in cuts) or len(set(cuts)) < len(cuts):
+                s.cls("split-with-zero-length-piece")
         relate("split", rbase, f"edges above {sorted(done)} split: {m_newick(stm)}", stm, cols, tips, **rkw)
 
     # -- re-rooting (reversible)
@@ -693,8 +923,8 @@ def execute(case) -> Soft:
                 s.cls("reroot-leaves-degree2-node")
             root_nontrivial = root_nontrivial or moved
             relate(name, rbase, f"{what}: {m_newick(tm)} -> {m_newick(rtm)}", rtm, cols, tips, **rkw)
-        # library re-rooting, globally scoped parameters only
-        if case["scope"] == "global":
+        # library re-rooting, globally scoped parameters only (trees with two tips are left to C09)
+        if case["scope"] == "global" and ntips >= 3:
             lb = xf["lib"]
             ok, real = s.call(f"make_tree/{fam}", cogent3.make_tree, m_newick(tm))
             if ok:
@@ -724,8 +954,8 @@ def execute(case) -> Soft:
     if not discrete and rtm is not None:
         cn = m_nodes(ctm)
         sp = xf["split"][0]
-        ctm = m_split(ctm, cn[sp["node"] % len(cn)]["name"], sp["frac"], "s_c")
-    relate("combined", k * rbase, "column permutation + sequence order + child order + repetition" + (" + re-rooting + split" if rtm is not None else ""),
+        ctm = m_split(ctm, cn[sp["node"] % len(cn)]["name"], sp["cuts"] if "cuts" in sp else [sp["frac"]], "s_c")
+    relate("combined", k * rbase, f"column permutation + sequence order + child order + {k}-fold repetition" + (" + re-rooting + split" if rtm is not None else ""),
            ctm, [pcols[i % ncols] for i in range(ncols * k)], order, **rkw)
 
     s.evals = max(1, evals)
@@ -737,11 +967,199 @@ def execute(case) -> Soft:
     return s
 
 
+def _lnl_loci(ctx, tm, loci, pade=False):
+    """lnL of a likelihood function over the given loci (list of {"name", "cols", "order", "mp", "shift"}) on tree
+    model ``tm``; a single locus is evaluated with an ordinary (loci-less) likelihood function"""
+    import cogent3
+
+    case = ctx.case
+    tips = ctx.tips
+    alns = []
+    for lc in loci:
+        seqs = {nm: "".join(c[tips.index(nm)] for c in lc["cols"]) for nm in lc["order"]}
+        alns.append(cogent3.make_aligned_seqs(seqs, moltype="dna", new_type=case["new_type"]))
+    tree = cogent3.make_tree(m_newick(tm))
+    nodes = m_nodes(tm)
+    multi = len(loci) > 1
+    lf = ctx.sm.make_likelihood_function(tree, **({"loci": [lc["name"] for lc in loci]} if multi else {}))
+    lf.set_alignment(alns if multi else alns[0])
+    keys = sorted(ctx.sm.get_mprob_alphabet())
+    if case["pi_mode"] != "data":
+        for i, lc in enumerate(loci):
+            w = ctx.shared_mp if case["pi_mode"] == "shared" else lc["mp"]
+            tot = sum(w)
+            lf.set_motif_probs({k: x / tot for k, x in zip(keys, w)}, **({"locus": lc["name"]} if multi else {}))
+    ctx.mprobs_free = bool(lf.optimise_motif_probs)
+    if pade:
+        lf.set_expm("pade")
+    pnames = sorted(p for p in lf.get_param_names() if p not in SKIP_PARAMS)
+    pv = case["pvals"]
+    groups = {}
+    for n in nodes:
+        groups.setdefault(n["grp"] if case["scope"] == "edge" else 0, []).append(n["name"])
+    rules = []
+    for i, p in enumerate(pnames):
+        for lc in loci:
+            lkw = {"locus": lc["name"]} if multi else {}
+            shift = lc["shift"] if case["param_scope"] == "per-locus" else 0
+            for g, edges in sorted(groups.items()):
+                ekw = {"edges": edges} if case["scope"] == "edge" else {}
+                rules.append(dict(par_name=p, value=pv[(i + 5 * g + shift) % len(pv)], is_constant=True, **lkw, **ekw))
+    for n in nodes:
+        rules.append(dict(par_name="length", edge=n["name"], value=n["len"], is_constant=True))
+    lf.apply_param_rules(rules)
+    return float(lf.lnL)
+
+
+def execute_loci(case) -> Soft:
+    s = Soft("C11/")
+    model = case["model"]
+    tm = case["tree"]
+    xf = case["xf"]
+    ctx = _Ctx()
+    ctx.case = case
+    tips = ctx.tips = m_tips(tm)
+    rev = model in REVERSIBLE
+    data_pi = case["pi_mode"] == "data"
+    ok, sm = s.call("get_model/loci", lambda: _get_sm(model, {"optimise_motif_probs": True} if case["opt_mp"] else {}))
+    if not ok:
+        return s
+    ctx.sm = sm
+    ctx.shared_mp = case["loci"][0]["mp"]
+    loci = [dict(lc, order=tips) for lc in case["loci"]]
+    nloci = len(loci)
+    s.cls(
+        "family:loci", f"model:{model}", f"kind:{'reversible' if rev else 'nonreversible'}", f"loci:{nloci}", f"pi:{case['pi_mode']}",
+        f"params:{case['param_scope']}", f"scope:{case['scope']}", f"tips:{len(tips)}",
+        "optimise_motif_probs=True" if case["opt_mp"] else "optimise_motif_probs:model-default",
+        "new-type-alignment" if case["new_type"] else "old-type-alignment",
+    )
+    if not all(any(m in NUCS for c in lc["cols"] for m in c) for lc in loci):
+        s.cls("locus-without-complete-motif(skipped)")  # no motif frequencies can be derived from it (see execute)
+        return s
+    ok, base = s.call("base/loci", _lnl_loci, ctx, tm, loci)
+    if not ok:
+        return s
+    if not (math.isfinite(base) and base < 0):
+        s.cls("base-not-finite")
+        return s
+    evals = 0
+
+    def relate(name, want, what, *args, rtol=1e-9, tag="", **kwargs):
+        nonlocal evals
+        sig = f"{name}{tag}/loci"
+        ok, got = s.call(sig, _lnl_loci, ctx, *args, **kwargs)
+        if not ok:
+            return
+        evals += 1
+        s.cls(f"rel:{name}{tag}")
+        s.notes.setdefault("residuals", []).append([name + tag, abs(got - want) / max(1.0, abs(want))])
+        s.close(got, want, sig, f"{model} {nloci} loci pi={case['pi_mode']} params={case['param_scope']} scope={case['scope']} {what}: base lnL {base!r}", rtol=rtol)
+
+    if case["default_expm"]:
+        rbase, rkw = base, {"pade": False, "rtol": 1e-6, "tag": "/default-expm"}
+    else:
+        ok, rbase = s.call("base-pade/loci", _lnl_loci, ctx, tm, loci, pade=True)
+        if not ok or not (math.isfinite(rbase) and rbase < 0):
+            return s
+        rkw = {"pade": True, "tag": "/pade"}
+        stiff = False
+        for lc in loci:
+            if data_pi:
+                cnt = {}
+                for c in lc["cols"]:
+                    for m in c:
+                        if m in NUCS:
+                            cnt[m] = cnt.get(m, 0) + 1
+                stiff = stiff or _spread(list(cnt.values())) < STIFF_SPREAD
+            else:
+                stiff = stiff or _spread(ctx.shared_mp if case["pi_mode"] == "shared" else lc["mp"]) < STIFF_SPREAD
+        if stiff:
+            rkw["rtol"] = 1e-6  # see execute
+            s.cls("near-degenerate-motif-probs(pade relations at 1e-6)")
+
+    # -- columns permuted within every locus
+    ploci = [dict(lc, cols=[lc["cols"][i] for i in lc["colperm"]]) for lc in loci]
+    relate("loci-colperm", base, f"columns of the loci permuted by {[lc['colperm'] for lc in loci]}", tm, ploci)
+    col_nontrivial = any(len({tuple(c) for c in lc["cols"]}) >= 3 and pl["cols"] != lc["cols"] for lc, pl in zip(loci, ploci))
+
+    # -- sequences of every locus given in their own order
+    oloci = [dict(lc, order=[tips[i] for i in lc["seqperm"]]) for lc in loci]
+    relate("loci-seqorder", base, f"sequences of the loci given in orders {[lc['order'] for lc in oloci]}", tm, oloci)
+
+    # -- loci listed in another order (each keeps its name, alignment, motif probabilities and parameter values)
+    if case["pi_mode"] != "shared":
+        lperm = xf["locusperm"]
+        relate("loci-order", base, f"loci listed in order {[loci[i]['name'] for i in lperm]}", tm, [loci[i] for i in lperm])
+
+    # -- child order
+    ktm = m_permute_kids(tm, xf["kids"])
+    relate("loci-childorder", base, f"children reordered: {m_newick(ktm)}", ktm, loci)
+
+    # -- every column of every locus repeated k times (see execute for the restriction)
+    k = xf["k"]
+    if data_pi and ctx.mprobs_free:
+        k = 1
+    else:
+        relate("loci-repeat", k * base, f"every column of every locus repeated {k} times", tm, [dict(lc, cols=[c for c in lc["cols"] for _ in range(k)]) for lc in loci])
+
+    # -- the loci are independent data sets: lnL = sum of the lnL of single-locus functions with the locus' own settings
+    total, okall = 0.0, True
+    for i, lc in enumerate(loci):
+        one = dict(lc, mp=ctx.shared_mp) if case["pi_mode"] == "shared" else lc
+        ok, part = s.call("loci-single/loci", _lnl_loci, ctx, tm, [one])
+        if not (ok and math.isfinite(part)):
+            okall = False
+            break
+        evals += 1
+        total += part
+    if okall:
+        s.cls("rel:loci-sum")
+        s.notes.setdefault("residuals", []).append(["loci-sum", abs(total - base) / max(1.0, abs(base))])
+        s.close(base, total, "loci-sum/loci", f"{model} {nloci} loci pi={case['pi_mode']} params={case['param_scope']} scope={case['scope']}: lnL of the multi-locus function vs sum over single-locus functions")
+
+    # -- edge split
+    nodes = m_nodes(tm)
+    sp = xf["split"]
+    stm = m_split(tm, nodes[sp["node"] % len(nodes)]["name"], sp["cuts"], "s0")
+    relate("loci-split", rbase, f"edge split: {m_newick(stm)}", stm, loci, **rkw)
+
+    # -- root placement (reversible models)
+    root_nontrivial = False
+    ctm = stm
+    if rev:
+        rr = xf["reroot"]
+        internal = m_internal(tm)[1:]
+        if rr["at"] and internal:
+            target = internal[rr["node"] % len(internal)]["name"]
+            rtm = m_reroot_at(tm, target)
+            root_nontrivial = m_depth_of(tm, target) >= 1
+        else:
+            target = nodes[rr["node"] % len(nodes)]["name"]
+            rtm = m_reroot_at(m_split(tm, target, rr["frac"], "n_x"), "n_x")
+            root_nontrivial = m_depth_of(tm, target) >= 2
+        relate("loci-reroot", rbase, f"root moved: {m_newick(tm)} -> {m_newick(rtm)}", rtm, loci, **rkw)
+        ctm = rtm
+
+    # -- everything at once
+    cl = [dict(lc, cols=[pl["cols"][i % len(pl["cols"])] for i in range(len(pl["cols"]) * k)], order=ol["order"]) for lc, pl, ol in zip(loci, ploci, oloci)]
+    if case["pi_mode"] != "shared":
+        cl = [cl[i] for i in xf["locusperm"]]
+    relate("loci-combined", k * rbase, f"column permutation + sequence order + locus order + child order + {k}-fold repetition" + (" + re-rooting" if rev else " + split"),
+           m_permute_kids(ctm, xf["kids"][::-1]), cl, **rkw)
+
+    s.evals = max(1, evals)
+    s.nontrivial = bool(col_nontrivial or root_nontrivial)
+    return s
+
+
 # codon models take 1-4 s each to construct, so the codon cases are split into subs by model group: a worker process
 # then builds only the models of its group
 SUBS = [
     Sub("nucleotide", execute, strategy=case_st("nuc"), quick=640, thorough=64_000, shards_quick=16, weight=1.0),
     Sub("protein", execute, strategy=case_st("prot"), quick=160, thorough=16_000, shards_quick=8, weight=1.0),
+    Sub("multilocus", execute_loci, strategy=loci_case_st(), quick=64, thorough=6_400, shards_quick=4, weight=1.0),
+    Sub("ns-predicate", execute, strategy=case_st("ns"), quick=64, thorough=6_400, shards_quick=4, weight=1.0),
     Sub("codon-cnf", execute, strategy=case_st("codon", ["CNFGTR", "CNFHKY"]), quick=32, thorough=3_200, shards_quick=2, weight=4.0),
     Sub("codon-mg94", execute, strategy=case_st("codon", ["MG94HKY", "MG94GTR"]), quick=32, thorough=3_200, shards_quick=2, weight=4.0),
     Sub("codon-y98", execute, strategy=case_st("codon", ["GY94", "Y98"]), quick=32, thorough=3_200, shards_quick=2, weight=4.0),
